@@ -27,6 +27,8 @@ import RV.Drv.Wakeup
 import RV.Drv.TrafficX
 import RV.Drv.Finder
 import RV.Drv.DepCtl
+import RV.Drv.ExecutorX
+import RV.Drv.TRBind
 import RV.Drv.Extra1
 import RV.Drv.Extra2
 namespace RV.Drv
@@ -60,6 +62,8 @@ def lookup : String → Option Handler
   | "trafficx" => some TrafficX.handle
   | "finder" => some Finder.handle
   | "depctl" => some DepCtl.handle
+  | "executorx" => some ExecutorX.handle
+  | "trbind" => some TRBind.handle
   | "extra1" => some Extra1.handle
   | "extra2" => some Extra2.handle
   | _ => none
